@@ -56,7 +56,7 @@ psutil_ethtool_cmd_speed(const struct ethtool_cmd *ecmd) {
 // * http://www.i-scream.org/libstatgrab/
 PyObject*
 psutil_net_if_duplex_speed(PyObject* self, PyObject* args) {
-    char *nic_name;
+    PyObject *py_nic_name = NULL;
     int sock = 0;
     int ret;
     int duplex;
@@ -66,13 +66,16 @@ psutil_net_if_duplex_speed(PyObject* self, PyObject* args) {
     struct ethtool_cmd ethcmd;
     PyObject *py_retlist = NULL;
 
-    if (! PyArg_ParseTuple(args, "s", &nic_name))
+    // NIC names are not necessarily UTF-8.
+    if (! PyArg_ParseTuple(args, "O&", PyUnicode_FSConverter, &py_nic_name))
         return NULL;
+    PSUTIL_STRNCPY(ifr.ifr_name, PyBytes_AsString(py_nic_name),
+                   sizeof(ifr.ifr_name));
+    Py_DECREF(py_nic_name);
 
     sock = socket(AF_INET, SOCK_DGRAM, 0);
     if (sock == -1)
         return psutil_PyErr_SetFromOSErrnoWithSyscall("socket()");
-    PSUTIL_STRNCPY(ifr.ifr_name, nic_name, sizeof(ifr.ifr_name));
 
     // duplex and speed
     memset(&ethcmd, 0, sizeof ethcmd);
